@@ -311,7 +311,7 @@ func TestVerif_C18_Namespaces(t *testing.T) {
 	rapid.Check(t, func(rt *rapid.T) {
 		// ---- generate everything first: the draws never depend on what the server answered
 		txn := rapid.Bool().Draw(rt, "transactionalStorage")
-		source := c18Sources[fairIndex(rt, "source", len(c18Sources))]
+		source := c18Sources[fairIndex(rt, "source", 5)] // the sixth source (self-wrapping engine) belongs to the root unit
 		canary := "CNRY" + rapid.StringMatching("[A-Za-z0-9]{20}").Draw(rt, "canary")
 		w := fairIndex(rt, "wrapNS", len(c18nsPaths))
 		var anc []int
